@@ -1934,4 +1934,58 @@ theorem j_always (c : CaseCfg) (steps : List Step) (hns : noStaleRun (init c) st
     J ((init c).runSteps steps) :=
   j_runSteps _ steps (j_init c) hns
 
+
+/-! ## What the coupling says about the worker actors -/
+
+/-- a live actor that holds a job is the worker of a slot that books exactly this job; it holds
+nothing else and no report of the slot is pending -/
+theorem Core.held_booked {w : W} (h : Core fk w) {aid : Nat} {a : Actor} {j : Job} (g : w.env.getActor aid = some a)
+    (hal : a.alive = true) (hj : j ∈ a.heldJobs) :
+    a.heldJobs = [j] ∧ ∃ p ∈ w.pool, p.actor = aid ∧ p.wid = a.wid ∧ p.curr.map (·.1) = [j.key] ∧ fk p.wid = [] := by
+  have hslot : ∃ p ∈ w.pool, p.actor = aid := by
+    apply Classical.byContradiction
+    intro hc
+    have := (h.free aid a g hal (fun p hp hpa => hc ⟨p, hp, hpa⟩)).1
+    rw [this] at hj; cases hj
+  obtain ⟨p, hp, hpa⟩ := hslot
+  obtain ⟨x, gx, hxw, hxa, _⟩ := h.sa p hp
+  rw [hpa, g] at gx; cases gx
+  obtain ⟨_, heq⟩ := hxa hal
+  have hone := (h.slot p hp).one
+  have hlen : (p.curr.map (·.1)).length ≤ 1 := by simpa using hone
+  rw [heq] at hlen
+  simp only [List.length_append, List.length_map] at hlen
+  have hpos : 0 < a.heldJobs.length := List.length_pos_of_mem hj
+  have hfk : fk p.wid = [] := List.eq_nil_of_length_eq_zero (by omega)
+  have hheld : a.heldJobs = [j] := by
+    cases hh : a.heldJobs with
+    | nil => rw [hh] at hj; cases hj
+    | cons y ys =>
+      rw [hh] at hlen hj
+      have : ys = [] := List.eq_nil_of_length_eq_zero (by simp only [List.length_cons] at hlen; omega)
+      subst this
+      simp only [List.mem_singleton] at hj
+      rw [hj]
+  refine ⟨hheld, p, hp, hpa, hxw.symm, ?_, hfk⟩
+  rw [heq, hheld, hfk]; rfl
+
+theorem Core.held_le_one {w : W} (h : Core fk w) {aid : Nat} {a : Actor} (g : w.env.getActor aid = some a)
+    (hal : a.alive = true) : a.heldJobs.length ≤ 1 := by
+  cases hh : a.heldJobs with
+  | nil => simp
+  | cons j js =>
+    have := (h.held_booked g hal (j := j) (by rw [hh]; exact List.mem_cons_self ..)).1
+    rw [hh] at this
+    rw [this]; simp
+
+/-- J at the instant an operation is applied -/
+theorem j_at (c : CaseCfg) (steps : List Step) (t : Nat) (hns : noStaleRun (init c) steps = true) :
+    J (W.advanceTo t (advanceFuel ((init c).runSteps steps) t) ((init c).runSteps steps)) :=
+  j_advanceTo _ _ _ (j_always c steps hns)
+
+theorem J.core {w : W} (h : J w) (hs : w.stopped = false) : Core (fkOf w.inbox) w := by
+  rcases h with h | h
+  · rw [hs] at h; cases h
+  · exact h
+
 end Factory
